@@ -25,7 +25,7 @@ ASSUMPTIONS = [
     "library calls in the frozen no-raise table of sa/effects.py do not raise (logging, loop.time/create_task, set/deque ops, StreamWriter.write/close/is_closing)",
     "asyncio.open_connection / drain / wait_closed raise only OSError family; CancelledError is outside the lattice",
 ]
-FLOORS = {"C07.R1": 5, "C07.R2": 7, "C07.R3": 3, "C07.R4": 5, "C07.R5": 2, "C07.R6": 3, "C07.R7": 3, "C07.R8": 3, "C07.R9": 4, "C07.R10": 1, "C07.R11": 5}
+FLOORS = {"C07.R1": 5, "C07.R2": 7, "C07.R3": 3, "C07.R4": 5, "C07.R5": 2, "C07.R6": 3, "C07.R7": 6, "C07.R8": 3, "C07.R9": 4, "C07.R10": 1, "C07.R11": 5}
 
 
 def run(ctx):
@@ -316,30 +316,48 @@ def r6(ctx):
 
 # ------------------------------------------------------------------------------------------ R7
 def check_notify_isolation(ctx, R, modname, qual):
+    """Two sound idioms for running the subscriber callbacks:
+    (A) `for cb in callbacks: try: await cb except Exception: log` - each awaited inside its own catch-all, in the loop;
+    (B) `await asyncio.gather(*callbacks, return_exceptions=True)` - every callback runs to its end whatever the others do,
+        nothing a callback raises propagates, and cancelling the notifier cancels the callbacks still running.
+    Refuted: a re-raise / loop exit in the handler, gather without return_exceptions=True (the first failure aborts the caller),
+    an await of a callback outside the protection, and callbacks turned into tasks that outlive a cancelled notifier
+    (as_completed / create_task / ensure_future / asyncio.wait without cancelling them)."""
     f = fn_of(ctx, modname, qual)
     m = f.module
+    lab = f"{modname.split('.', 1)[1]}.{qual}"
     loops = [n for n in ast.walk(f.node) if isinstance(n, (ast.For, ast.AsyncFor))]
     ok = False
-    found = "no `for ... : try: await ... except Exception` structure"
+    found = "neither `for ...: try: await ... except Exception` nor `await asyncio.gather(..., return_exceptions=True)`"
+    protected = set()
     for lp in loops:
         for st in lp.body:
             if isinstance(st, ast.Try):
-                aw = [x for s in st.body for x in ast.walk(s) if isinstance(x, ast.Await)]
+                aw = [x for s_ in st.body for x in ast.walk(s_) if isinstance(x, ast.Await)]
                 catch = [h for h in st.handlers if h.type is None or (dotted(h.type) or "").split(".")[-1] in ("Exception", "BaseException")]
-                reraises = any(isinstance(x, ast.Raise) for h in st.handlers for s in h.body for x in ast.walk(s))
-                exits = any(isinstance(x, (ast.Return, ast.Break)) for h in st.handlers for s in h.body for x in ast.walk(s))
+                reraises = any(isinstance(x, ast.Raise) for h in st.handlers for s_ in h.body for x in ast.walk(s_))
+                exits = any(isinstance(x, (ast.Return, ast.Break)) for h in st.handlers for s_ in h.body for x in ast.walk(s_))
                 if aw and catch and not reraises and not exits:
                     ok = True
+                    protected |= {id(x) for x in aw}
                 elif aw:
                     found = "handler types: " + ", ".join(unparse(h.type) if h.type is not None else "bare" for h in st.handlers) + ("; re-raises" if reraises else "") + ("; leaves the loop" if exits else "")
-    # no await of a callback outside such a try
-    stray = []
-    for x in walk_no_nested(f.node):
-        if isinstance(x, ast.Await):
-            inside = any(isinstance(st, ast.Try) and any(x is y for s in st.body for y in ast.walk(s)) for lp in loops for st in lp.body)
-            if not inside:
-                stray.append(x)
-    ctx.check(ok and not stray, R, f"{modname.split('.', 1)[1]}.{qual}:isolation", m, f.node, "each callback is awaited inside its own try/except Exception within the loop, without re-raise", found if not ok else (f"await outside the per-callback try at line {stray[0].lineno}" if stray else ""))
+    gathers = [x for x in walk_no_nested(f.node) if isinstance(x, ast.Await) and isinstance(x.value, ast.Call) and (ctx.repo.qual(m, x.value.func) or dotted(x.value.func) or "") == "asyncio.gather"]
+    for gx in gathers:
+        re_ = next((k.value for k in gx.value.keywords if k.arg == "return_exceptions"), None)
+        if isinstance(re_, ast.Constant) and re_.value is True:
+            ok = True
+            protected.add(id(gx))
+        else:
+            ok = False
+            found = "asyncio.gather without return_exceptions=True: the first failing subscriber aborts the caller and hides the others' results"
+            break
+    stray = [x for x in walk_no_nested(f.node) if isinstance(x, ast.Await) and id(x) not in protected]
+    ctx.check(ok and not stray, R, f"{lab}:isolation", m, f.node, "each callback is awaited inside its own try/except Exception within the loop, or all of them through asyncio.gather(..., return_exceptions=True): a failing subscriber neither stops the others nor the caller", found if not ok else (f"await outside the protection at line {stray[0].lineno}" if stray else ""))
+    # the callbacks do not outlive a cancelled notifier
+    detached = [x for x in walk_no_nested(f.node) if isinstance(x, ast.Call) and ((ctx.repo.qual(m, x.func) or dotted(x.func) or "").split(".")[-1] in ("as_completed", "create_task", "ensure_future", "wait", "run_coroutine_threadsafe", "TaskGroup"))]
+    cancels = any(isinstance(x, ast.Call) and isinstance(x.func, ast.Attribute) and x.func.attr == "cancel" for x in ast.walk(f.node))
+    ctx.check(not detached or cancels, R, f"{lab}:callbacks-end-with-the-notifier", m, (detached[0] if detached else f.node), "the callbacks are awaited directly or through gather(), so cancelling the notifying task (close() cancels the read loop) also ends the callbacks that are still running", f"`{norm_text(detached[0])[:60]}` wraps the callbacks in tasks of their own that keep running - and acting on the client - after the notifier was cancelled" if detached else "")
 
 
 def r7(ctx):
